@@ -465,6 +465,8 @@ type Case struct {
 	M     int    `json:"m"`
 	Class string `json:"class"`
 	Items []Item `json:"items"`
+	// live cases (spec/amf0/Amf0Live.tla, live.go)
+	Steps []Step `json:"steps"`
 }
 
 // Item is one position of a marker byte: at the top, in an object, an ECMA array, a strict array.
